@@ -102,6 +102,14 @@ Fixpoint dedup (l : list oid) : list oid :=
   | x :: r => if mem x r then dedup r else x :: dedup r
   end.
 
+(* the distinct ids of a list, in first-occurrence order (the keys of a dict built from it) *)
+Fixpoint distinct_acc (seen l : list oid) : list oid :=
+  match l with
+  | [] => []
+  | x :: r => if mem x seen then distinct_acc seen r else x :: distinct_acc (x :: seen) r
+  end.
+Definition distinct (l : list oid) : list oid := distinct_acc [] l.
+
 Fixpoint upd_nth {A} (i : nat) (f : A -> A) (l : list A) : list A :=
   match l, i with
   | [], _ => []
@@ -176,12 +184,12 @@ Definition store_has (st : state) (si : nat) (k : oid) : bool :=
 (* HashFileDB.add(paths, fs, oids, check_exists) with links [reflink(unavailable), copy]:
    the exists filter is evaluated up front; the copies run one after the other (batch size 1
    between local file systems), a later item with the same oid replaces the earlier one; then
-   every oid that was handed in is protected. *)
+   every distinct oid that was handed in is protected (the post loop runs over a dict keyed by oid). *)
 Definition add_copy (st : state) (si : nat) (items : list (oid * list N)) (check_exists : bool) : state :=
   let to_add := if check_exists then filter (fun it => negb (store_has st si (fst it))) items
                 else items in
   let st1 := fold_left (fun s it => put_new s si (fst it) (snd it)) to_add st in
-  fold_left (fun s it => protect_one s si (fst it)) items st1.
+  fold_left (fun s k => protect_one s si k) (distinct (map fst items)) st1.
 
 (* dest.add(paths, src.fs, oids, hardlink=True) of migrate: links [reflink, hardlink, copy];
    os.link on an existing name raises FileExistsError, which generic.transfer skips: the first
@@ -196,7 +204,7 @@ Definition add_link (st : state) (si : nat) (items : list (oid * obj)) (hard : b
                  | _ => if store_has s si (fst it) then s else put_link s si (fst it) (snd it)
                  end
                else put_new s si (fst it) (o_bytes (snd it))) to_add st in
-  fold_left (fun s it => protect_one s si (fst it)) items st1.
+  fold_left (fun s k => protect_one s si k) (distinct (map fst items)) st1.
 
 (* ------------------------------------------------------------------ operations *)
 Inductive work :=
@@ -294,7 +302,7 @@ Definition verify_one (st : state) (si : nat) (k : oid) : state :=
   end.
 Definition add_copy_v (st : state) (si : nat) (items : list (oid * list N)) : state :=
   let st1 := fold_left (fun s it => put_new s si (fst it) (snd it)) items st in
-  fold_left (fun s it => verify_one s si (fst it)) items st1.
+  fold_left (fun s k => verify_one s si k) (distinct (map fst items)) st1.
 
 (* the (oid, bytes) pairs of the ids the source really holds *)
 Definition items_of (src : oid -> option (list N)) (ks : list oid) : list (oid * list N) :=
